@@ -114,9 +114,9 @@ def c02cwrr (a : List String) (obs : String) : String × String :=
 
 def c02mf (a : List String) (obs : String) : String × String :=
   match a with
-  | [v, f, r, o, m, k, _, nm, p] =>
+  | [v, f, r, o, m, k, l, nm, p] =>
     let pl := hexOr p
-    let h := { parseHeader [f, r, o, m, k, "0"] with len := pl.length }
+    let h := parseHeader [f, r, o, m, k, l]      -- Length as the caller left it (not necessarily the payload's)
     let fr : Frame := ⟨h, pl⟩
     -- a random mask chosen by the implementation is read off its result and used as input
     let obsMask := parseMask (((obs.splitOn " ").headD "").splitOn "," |>.getD 4 "00000000")
